@@ -1,5 +1,10 @@
 """C14 — resize, pad and trim keep data centred and attached to its coordinates; zoom windows contain
-every unmasked pixel with its value."""
+every unmasked pixel with its value.
+
+Streams: ordinary small cases (exhaustive shapes + seeded structured cases, every one compared with the Lean
+model), reuse HISTORIES on real objects (kind "history", part of every run, every read compared with the model
+for a fresh object in that state) and constant-directed LARGE cases (kind "large", only when the anchored source
+gained an integer constant; judged by a vectorised statement of the property, no model comparison)."""
 from __future__ import annotations
 
 import itertools
@@ -78,13 +83,357 @@ def _values(rng, n, signed=True):
     return vals
 
 
+# ======================================================================================================
+# Round-4 hardening, part 1: LARGE cases (kind "large"), judged by a vectorised statement of the property
+#
+# A large case is a compact description (shapes, a mask spec, a value formula) — never the arrays themselves.
+# `run_impl` builds the inputs, calls the public API, and hands the raw numpy outputs to the `_lj_*`
+# functions below, which state the property directly with numpy (exact: all values are small integers or
+# quarters, pixel scales / origins dyadic).  Only the verdict and a digest travel in the observation, so
+# evidence and replays stay small.  No model comparison (`model_requests` returns []).
+# ======================================================================================================
+LARGE_CASE_CAP = 2_600_000        # pixel-iterations one large case may cost in pure Python
+LARGE_TOTAL_CAP = 70_000_000      # ... and all large cases of one run together (~35 s)
+
+
+def _lvals(h, w, quarter=False, salt=0):
+    """distinct signed values, asymmetric under every flip / transpose: ±(index+1+salt)"""
+    idx = np.arange(h * w, dtype=np.int64)
+    v = (idx + 1 + salt) * np.where(idx % 3 == 0, -1, 1)
+    v = v.astype(float).reshape(h, w)
+    return v / 4.0 if quarter else v
+
+
+def _lmask(spec, h, w):
+    """True = masked.  spec: {"t":"none"} | {"t":"all"} | {"t":"band","start":k,"count":n} (row-major indices
+    [k, k+n) unmasked) | {"t":"rects","rects":[[y0,y1,x0,x1],...],"holes":[[y,x],...],"extra":[[y,x],...]}"""
+    t = spec["t"]
+    if t == "none":
+        return np.zeros((h, w), dtype=bool)
+    if t == "all":
+        return np.ones((h, w), dtype=bool)
+    if t == "band":
+        m = np.ones(h * w, dtype=bool)
+        m[spec["start"]:spec["start"] + spec["count"]] = False
+        return m.reshape(h, w)
+    m = np.ones((h, w), dtype=bool)
+    for y0, y1, x0, x1 in spec.get("rects", []):
+        m[max(0, y0):max(0, y1), max(0, x0):max(0, x1)] = False
+    for y, x in spec.get("holes", []):
+        m[y, x] = True
+    for y, x in spec.get("extra", []):
+        m[y, x] = False
+    return m
+
+
+def _np_window(prev, h2, w2, ty, tx, pad):
+    """result[r, c] = prev[r + ty, c + tx] inside the frame of prev, pad outside"""
+    h, w = prev.shape
+    out = np.full((h2, w2), pad, dtype=prev.dtype)
+    r0, r1 = max(0, -ty), min(h2, h - ty)
+    c0, c1 = max(0, -tx), min(w2, w - tx)
+    if r1 > r0 and c1 > c0:
+        out[r0:r1, c0:c1] = prev[r0 + ty:r1 + ty, c0 + tx:c1 + tx]
+    return out
+
+
+def _first_diff(a, b):
+    d = np.argwhere(np.asarray(a) != np.asarray(b))
+    if len(d) == 0:
+        return ""
+    i = tuple(int(v) for v in d[0])
+    return f" (first difference at {i}: {np.asarray(a)[i].item()!r} vs {np.asarray(b)[i].item()!r}; {len(d)} entries differ)"
+
+
+def _np_close(a, b):
+    a, b = np.asarray(a, dtype=float), np.asarray(b, dtype=float)
+    return np.abs(a - b) <= 1e-9 * np.maximum(1.0, np.maximum(np.abs(a), np.abs(b)))
+
+
+def _lj_raw_resize(src, got, shape, pad, what="resized"):
+    """one call of the raw resize: a shifted window copy whose offset is within one pixel of centred on each
+    axis (exactly centred when the parity of the axis is kept), padded with `pad`"""
+    h, w = src.shape
+    h2, w2 = shape
+    if tuple(got.shape) != (h2, w2):
+        return f"{what}: shape {tuple(got.shape)} != {(h2, w2)}"
+    for ty in _admissible(h, h2):
+        for tx in _admissible(w, w2):
+            if np.array_equal(got, _np_window(src, h2, w2, ty, tx, pad)):
+                return None
+    exp = _np_window(src, h2, w2, _admissible(h, h2)[0], _admissible(w, w2)[0], pad)
+    return (f"{what} {h}x{w}->{h2}x{w2} is not the centred crop / centred embedding (padded with {pad})"
+            + _first_diff(got, exp))
+
+
+def _lj_step(geom, step, prev, cur, with_values, store_native):
+    """vectorised twin of C14._check_step; prev / cur: dicts of numpy arrays (mask, native, slim, grid) and
+    float tuples (scales, origin)"""
+    (sy, sx), (oy, ox) = geom
+    pm, cm = prev["mask"], cur["mask"]
+    h, w = pm.shape
+    h2, w2 = cm.shape
+    k = step["k"]
+    if k == "resize":
+        want = tuple(step["shape"])
+    elif k == "pad":
+        want = (h + step["kernel"][0] - 1, w + step["kernel"][1] - 1)
+    else:
+        want = (h - (step["kernel"][0] - 1), w - (step["kernel"][1] - 1))
+    if (h2, w2) != want:
+        return f"{k}: shape {(h2, w2)} != {want}"
+    if tuple(cur["scales"]) != (sy, sx) or tuple(cur["origin"]) != (oy, ox):
+        return f"{k}: pixel scales / origin changed to {cur['scales']} / {cur['origin']}"
+    mask_pad = bool(int(step.get("mask_pad", 0)))
+    found = None
+    for ty in _admissible(h, h2):
+        for tx in _admissible(w, w2):
+            if not np.array_equal(cm, _np_window(pm, h2, w2, ty, tx, mask_pad)):
+                continue
+            if with_values:
+                exp = _np_window(prev["native"], h2, w2, ty, tx, 0.0)
+                exp[cm] = 0.0
+                if not np.array_equal(cur["native"], exp):
+                    continue
+            found = (ty, tx)
+            break
+        if found:
+            break
+    if not found:
+        return (f"{k} {h}x{w}->{h2}x{w2}: mask{' and values are' if with_values else ' is'} not the centred crop "
+                f"/ centred embedding (mask pad {int(mask_pad)}, value pad 0) of the input")
+    ty, tx = found
+    rr, cc = np.nonzero(~cm)
+    if with_values:
+        if not np.array_equal(cur["slim"], cur["native"][rr, cc]):
+            return f"{k}: .slim is not the row-major list of unmasked native values"
+        if bool(cur["store_native"]) != bool(store_native):
+            return f"{k}: store_native flag changed"
+    g = cur["grid"]
+    if len(g) != len(rr):
+        return f"{k}: grid has {len(g)} points for {len(rr)} unmasked pixels"
+    y, x = rr + ty, cc + tx
+    inside = (y >= 0) & (y < h) & (x >= 0) & (x < w)
+    if (h - h2) % 2 == 0:
+        bad = inside & ~_np_close(g[:, 0], oy + ((h - 1) / 2.0 - y) * sy)
+        if bad.any():
+            i = int(np.nonzero(bad)[0][0])
+            return (f"{k} {h}x{w}->{h2}x{w2}: pixel {(int(y[i]), int(x[i]))}->{(int(rr[i]), int(cc[i]))} moved in y: "
+                    f"{g[i, 0]} != {oy + ((h - 1) / 2.0 - y[i]) * sy}")
+    if (w - w2) % 2 == 0:
+        bad = inside & ~_np_close(g[:, 1], ox + (x - (w - 1) / 2.0) * sx)
+        if bad.any():
+            i = int(np.nonzero(bad)[0][0])
+            return (f"{k} {h}x{w}->{h2}x{w2}: pixel {(int(y[i]), int(x[i]))}->{(int(rr[i]), int(cc[i]))} moved in x: "
+                    f"{g[i, 1]} != {ox + (x[i] - (w - 1) / 2.0) * sx}")
+    return None
+
+
+def _lj_chain(case, geom, init, steps_obs, with_values):
+    prev = init
+    for step, cur in zip(case["steps"], steps_obs):
+        bad = _lj_step(geom, step, prev, cur, with_values, case.get("store_native", False))
+        if bad:
+            return bad
+        prev = cur
+    if case.get("roundtrip"):
+        a, b = init, steps_obs[-1]
+        what = "pad then trim" if case["steps"][0]["k"] == "pad" else "enlarge then shrink"
+        for key in ("mask", "native", "slim"):
+            if a.get(key) is None:
+                continue
+            if a[key].shape != b[key].shape or not np.array_equal(a[key], b[key]):
+                return f"{what} is not the identity: {key} differs" + (
+                    _first_diff(a[key], b[key]) if a[key].shape == b[key].shape else "")
+        if tuple(a["scales"]) != tuple(b["scales"]) or tuple(a["origin"]) != tuple(b["origin"]):
+            return f"{what} is not the identity: geometry differs"
+        if a["grid"].shape != b["grid"].shape or not _np_close(a["grid"], b["grid"]).all():
+            return "round trip moved the pixel coordinates"
+    return None
+
+
+def _lj_zoom(m, vals, buffer, region, z):
+    y0, y1, x0, x1 = region
+    zh, zw = z.shape
+    wy0, wx0 = y0 - buffer, x0 - buffer
+    ys, xs = np.nonzero(~m)
+    out = (ys < wy0) | (ys >= wy0 + zh) | (xs < wx0) | (xs >= wx0 + zw)
+    if out.any():
+        i = int(np.nonzero(out)[0][0])
+        return (f"unmasked pixel {(int(ys[i]), int(xs[i]))} is outside the zoom window "
+                f"{[int(wy0), int(wy0 + zh), int(wx0), int(wx0 + zw)]}")
+    bad = z[ys - wy0, xs - wx0] != vals[ys, xs]
+    if bad.any():
+        i = int(np.nonzero(bad)[0][0])
+        return f"unmasked pixel {(int(ys[i]), int(xs[i]))} does not carry its value in the zoomed array"
+    return None
+
+
+def _lj_apply_mask(m, data, noise, geom, o):
+    """o: {"padded", "data": arr-dict, "noise": arr-dict, "grid_uniform": N x 2, "ds_mask": bool array}"""
+    (sy, sx), (oy, ox) = geom
+    h, w = m.shape
+    ys, xs = np.nonzero(~m)
+    tail = " (padded)" if o["padded"] else ""
+    if not np.array_equal(o["data"]["slim"], data[ys, xs]):
+        return "data values of the unmasked pixels changed by apply_mask" + tail
+    if not np.array_equal(o["noise"]["slim"], noise[ys, xs]):
+        return "noise values of the unmasked pixels changed by apply_mask" + tail
+    ey, ex = oy + ((h - 1) / 2.0 - ys) * sy, ox + (xs - (w - 1) / 2.0) * sx
+    for gkey, g in (("grids.uniform", o["grid_uniform"]), ("Grid2D.from_mask(data.mask)", o["data"]["grid"]),
+                    ("Grid2D.from_mask(noise_map.mask)", o["noise"]["grid"])):
+        if len(g) != len(ys):
+            return f"{gkey} has {len(g)} points for {len(ys)} unmasked pixels"
+        bad = ~(_np_close(g[:, 0], ey) & _np_close(g[:, 1], ex))
+        if bad.any():
+            i = int(np.nonzero(bad)[0][0])
+            return (f"{gkey}: coordinate of pixel {(int(ys[i]), int(xs[i]))} moved ({g[i].tolist()} != "
+                    f"{[float(ey[i]), float(ex[i])]})" + (" after automatic padding" if o["padded"] else ""))
+    for mm in (o["data"]["mask"], o["noise"]["mask"], o["ds_mask"]):
+        if int((~mm).sum()) != len(ys):
+            return "number of unmasked pixels changed"
+    if not (np.array_equal(o["ds_mask"], o["data"]["mask"]) and np.array_equal(o["noise"]["mask"], o["data"]["mask"])):
+        return "dataset mask, data mask and noise-map mask differ"
+    for oo, src in ((o["data"], data), (o["noise"], noise)):
+        if not np.array_equal(oo["native"][~oo["mask"]], src[ys, xs]):
+            return "native array does not hold the values at the unmasked pixels in order"
+    return None
+
+
+def _same_parity_below(n, like):
+    """largest m <= n with m ≡ like (mod 2), at least 1"""
+    m = n if (n - like) % 2 == 0 else n - 1
+    return max(m, 1)
+
+
+def _shapes_for(n, up=False):
+    """non-square (H, W) whose pixel count is n or just below (up=False) / n or just above (up=True): near-square,
+    an exact factorisation near the square root if one exists, a 3-row strip and its transpose, a 1-row strip
+    (exactly n pixels, axis length n) and its transpose"""
+    import math
+
+    def other(a):
+        return -((-n) // a) if up else max(1, n // a)
+
+    out = []
+    a = max(1, math.isqrt(n) - 3)
+    out.append((a, other(a)))
+    for d in range(math.isqrt(n), max(1, math.isqrt(n) // 2), -1):
+        if n % d == 0 and d != n // d:
+            out.append((n // d, d))
+            break
+    out += [(3, other(3)), (other(3), 3), (1, n), (n, 1)]
+    seen, res = set(), []
+    for s in out:
+        if s[0] >= 1 and s[1] >= 1 and s not in seen:
+            seen.add(s)
+            res.append(s)
+    return res
+
+
+# ======================================================================================================
+# Round-4 hardening, part 2: REUSE HISTORIES on real objects (kind "history")
+#
+# A history drives one or two small "worlds" (a Mask2D the caller keeps, the caller's values, an Array2D paired
+# with that mask, an unmasked Imaging dataset) through typed steps.  `_hist_walk` is pure bookkeeping on the
+# INPUT: it tracks what the mask bits / values of every world are after each step and, for every observing
+# step, produces the ordinary small case (kind zoom / array_chain / mask_chain / apply_mask / util_resize) a
+# FRESH object in that state would be.  Each observation is compared with the model's answer and judged by
+# the ordinary oracle for that fresh case, so a stale result is a disagreement + oracle failure.
+# ======================================================================================================
+class HistInvalid(Exception):
+    """the history is not well-formed (only raised for shrink candidates)"""
+
+
+HIST_OBSERVING = ("zoom", "resize", "pad", "trim", "mask_resize", "apply_mask", "util_resize")
+
+
+def _hist_walk(case):
+    """yield (op, world_index, live world state BEFORE the op, fresh sub-case or None) for every op"""
+    worlds = []
+    for W in case["worlds"]:
+        mj = W["mask"]
+        worlds.append({"h": mj["h"], "w": mj["w"], "bits": [c == "1" for c in mj["bits"]],
+                       "scales": list(W["scales"]), "origin": list(W["origin"]), "native": list(W["native"]),
+                       "noise": list(W["noise"]) if W.get("noise") else None,
+                       "store_native": bool(W.get("store_native", False))})
+    if case.get("share_mask"):
+        a, b = worlds[0], worlds[1]
+        if (a["h"], a["w"], a["bits"], a["scales"], a["origin"]) != (b["h"], b["w"], b["bits"], b["scales"], b["origin"]):
+            raise HistInvalid("shared mask needs equal masks")
+        b["bits"] = a["bits"]
+    var = case.get("variant") or {}
+
+    def mj_of(st):
+        return {"h": st["h"], "w": st["w"], "bits": "".join("1" if b else "0" for b in st["bits"])}
+
+    for op in case["ops"]:
+        wi = op.get("w", 0)
+        if not 0 <= wi < len(worlds):
+            raise HistInvalid("world")
+        st = worlds[wi]
+        h, w = st["h"], st["w"]
+        k = op["op"]
+        geom = {"scales": list(st["scales"]), "origin": list(st["origin"]), "variant": var}
+        sub = None
+        if k == "zoom":
+            if all(st["bits"]):
+                raise HistInvalid("zoom of an all-masked mask")
+            sub = {"kind": "zoom", "mask": mj_of(st), **geom, "native": list(st["native"]), "buffer": op["buffer"]}
+        elif k in ("resize", "pad", "trim"):
+            step = {"k": k}
+            if k == "resize":
+                step.update(shape=list(op["shape"]), mask_pad=op.get("mask_pad", 0))
+            elif k == "pad":
+                step.update(kernel=list(op["kernel"]), mask_pad=op.get("mask_pad", 0))
+            else:
+                if op["kernel"][0] - 1 >= h or op["kernel"][1] - 1 >= w:
+                    raise HistInvalid("trim larger than the array")
+                step.update(kernel=list(op["kernel"]))
+            sub = {"kind": "array_chain", "mask": mj_of(st), **geom, "native": list(st["native"]),
+                   "store_native": st["store_native"], "steps": [step], "roundtrip": False}
+        elif k == "mask_resize":
+            sub = {"kind": "mask_chain", "mask": mj_of(st), **geom, "roundtrip": False,
+                   "steps": [{"k": "resize", "shape": list(op["shape"]), "mask_pad": op.get("mask_pad", 0)}]}
+        elif k == "apply_mask":
+            if st["noise"] is None:
+                raise HistInvalid("world without a noise map")
+            sub = {"kind": "apply_mask", "mask": mj_of(st), **geom, "data": list(st["native"]),
+                   "noise": list(st["noise"]), "kernel": list(case["kernel"])}
+        elif k == "util_resize":
+            sub = {"kind": "util_resize", "h": h, "w": w, "shape": list(op["shape"]), "src": list(st["native"]),
+                   "pad": op.get("pad", "0"), "origin": None, "variant": var}
+        yield op, wi, st, sub
+        # ---- bookkeeping of the steps that change a world
+        if k == "edit_mask":
+            if "rect" in op:
+                y0, y1, x0, x1 = op["rect"]
+                cells = [(y, x) for y in range(y0, y1) for x in range(x0, x1)]
+            else:
+                cells = [tuple(c) for c in op["cells"]]
+            for y, x in cells:
+                if not (0 <= y < h and 0 <= x < w):
+                    raise HistInvalid("cell")
+                st["bits"][y * w + x] = bool(op["value"])
+        elif k in ("edit_values", "edit_data"):
+            for (y, x), v in zip(op["cells"], op["values"]):
+                if not (0 <= y < h and 0 <= x < w):
+                    raise HistInvalid("cell")
+                if k == "edit_values" and st["bits"][y * w + x]:
+                    raise HistInvalid("in-place write under the mask")
+                st["native"][y * w + x] = v
+        elif k == "derive" and op.get("what", "mask") == "mask" and case.get("share_mask"):
+            raise HistInvalid("derive with a shared mask")
+
+
 class C14(PropertyCheck):
     pid = "C14"
     title = "resize / pad / trim / zoom"
     nontrivial_rule = (
         "a case is non-trivial when the shape changes on at least one axis (resize/pad/trim), or the "
         "mask has both masked and unmasked pixels (zoom / apply_mask); distinct = distinct "
-        "(kind, shapes, mask, values, geometry, steps)"
+        "(kind, shapes, mask, values, geometry, steps); a reuse history is non-trivial when it has two worlds or at "
+        "least one non-observing step (in-place edit, fault, derive, decoy); constant-directed large cases always"
     )
     exhaustive_note = {
         "quick": "resized_array_2d_from: every (H,W) in 1..5 x 1..5 to every (H',W') in 1..7 x 1..7 "
@@ -139,9 +488,30 @@ class C14(PropertyCheck):
     #    spellings of optional arguments / constructors (the exact model and the oracle do not care)
     VALUE_KEYS = ("src", "native", "data", "noise", "padded")
 
+    CONVENTIONAL_SIZES = (4096, 16384, 65536)
+
+    def _conventional_large(self, rng):
+        """thorough tier / failing-input search only: a thin slice of the large stream at conventional power-of-two
+        frame sizes, so that a size gate written WITHOUT a new literal (`1 << 16`, a module constant, a config
+        value) still meets inputs on both sides of the usual thresholds.  First in the stream: the search budget
+        is short."""
+        quota = {"large_util_resize": 8, "large_array_resize": 4, "large_mask_resize": 2, "large_zoom_unmasked": 2,
+                 "large_extract_frame": 2, "large_extract_window": 2, "large_pad_trim": 1, "large_unmasked_count": 1}
+        for c in self.CONVENTIONAL_SIZES:
+            seen = {}
+            for case in self.generate_large([c], rng):
+                t = case["tag"]
+                if seen.get(t, 0) < quota.get(t, 0):
+                    seen[t] = seen.get(t, 0) + 1
+                    yield {**case, "tag": t.replace("large_", "large_conv_")}
+
     def generate(self, tier, rng):
+        if tier != "quick" and not self.size_hints:
+            yield from self._conventional_large(rng)
         for case in self._generate_base(tier, rng):
             yield self._harden(rng, case)
+        # round-4 hardening: reuse histories on real objects (part of every run)
+        yield from self._history_cases(tier, rng)
 
     def _harden(self, rng, case):
         r = rng.random()
@@ -341,6 +711,426 @@ class C14(PropertyCheck):
             m, mk = gen.random_mask(rng, h, w)
             yield self._zoom_case(rng, m, rng.choice((0, 1, 1, 2, 3)), f"zoom_random_{mk}")
 
+    # ------------------------------------------------------------------ round 4: history generation
+    P20 = Fraction(1, 2 ** 20)      # relative twin perturbation: inside np.allclose's rtol, far outside 1e-9
+    P33 = Fraction(1, 2 ** 33)      # ~1.2e-10: "tiny value" scale, below np.allclose's atol
+
+    def _world(self, rng, h, w, m=None, exact=None, store_native=None):
+        if m is None:
+            m = gen.random_mask(rng, h, w)[0]
+            if all(b for row in m for b in row):
+                m[rng.randrange(h)][rng.randrange(w)] = False
+        return {"mask": mask_json(m), **_geom_case(rng, exact=exact), "native": qlist(_values(rng, h * w)),
+                "noise": qlist([abs(v) for v in _values(rng, h * w, signed=False)]),
+                "store_native": (rng.random() < 0.4) if store_native is None else store_native}
+
+    @staticmethod
+    def _bits2(W):
+        return _bits(W["mask"])
+
+    def _rand_read(self, rng, h, w, bits, kinds=None):
+        """a random observing op that is well-formed for a world of shape (h, w) with the given bits"""
+        kinds = list(kinds or ("zoom", "zoom", "resize", "resize", "pad", "trim", "mask_resize", "apply_mask",
+                               "util_resize"))
+        if all(b for row in bits for b in row):
+            kinds = [k for k in kinds if k != "zoom"] or ["resize"]
+        k = rng.choice(kinds)
+        if k == "trim":
+            ks = [x for x in (1, 3, 5) if x - 1 < h], [x for x in (1, 3, 5) if x - 1 < w]
+            if ks[0] == [1] and ks[1] == [1]:
+                k = "pad"
+            else:
+                return {"op": "trim", "kernel": [rng.choice(ks[0]), rng.choice(ks[1])]}
+        if k == "zoom":
+            return {"op": "zoom", "buffer": rng.choice((0, 1, 1, 2))}
+        if k == "resize":
+            return {"op": "resize", "shape": [rng.randint(1, h + 3), rng.randint(1, w + 3)],
+                    "mask_pad": rng.choice((0, 1))}
+        if k == "pad":
+            return {"op": "pad", "kernel": [rng.choice((1, 3, 5)), rng.choice((1, 3, 5))], "mask_pad": rng.choice((0, 1))}
+        if k == "mask_resize":
+            return {"op": "mask_resize", "shape": [rng.randint(1, h + 3), rng.randint(1, w + 3)],
+                    "mask_pad": rng.choice((0, 1))}
+        if k == "util_resize":
+            return {"op": "util_resize", "shape": [rng.randint(1, h + 3), rng.randint(1, w + 3)],
+                    "pad": q(gen.dyadic(rng, -3, 3, 2))}
+        return {"op": "apply_mask"}
+
+    def _rand_mask_edit(self, rng, h, w, bits, prefer=None):
+        """an in-place mask edit that changes at least one bit (and keeps >= 1 unmasked pixel); updates bits"""
+        unm = [(y, x) for y in range(h) for x in range(w) if not bits[y][x]]
+        msk = [(y, x) for y in range(h) for x in range(w) if bits[y][x]]
+        value = prefer if prefer is not None else rng.choice((0, 0, 1))
+        if value == 0 and not msk:
+            value = 1
+        if value == 1 and len(unm) < 2:
+            value = 0
+        if value == 0 and not msk:
+            return None
+        pool = msk if value == 0 else unm
+        via = rng.choice(("item", "item", "boolkey", "slice"))
+        if via == "slice":
+            y, x = rng.choice(pool)
+            y1, x1 = min(h, y + rng.randint(1, 2)), min(w, x + rng.randint(1, 2))
+            cells = [(a, b) for a in range(y, y1) for b in range(x, x1)]
+            if value == 1 and all(bits[a][b] or (a, b) in cells for a in range(h) for b in range(w)):
+                cells = [(y, x)]
+                y1, x1 = y + 1, x + 1
+            op = {"op": "edit_mask", "rect": [y, y1, x, x1], "value": value, "via": "slice"}
+        else:
+            kmax = len(pool) if value == 0 else len(pool) - 1
+            cells = rng.sample(pool, rng.randint(1, max(1, min(3, kmax))))
+            op = {"op": "edit_mask", "cells": [list(c) for c in cells], "value": value, "via": via}
+        for a, b in cells:
+            bits[a][b] = bool(value)
+        return op
+
+    def _rand_value_edit(self, rng, h, w, bits, which="edit_values"):
+        pool = [(y, x) for y in range(h) for x in range(w) if which == "edit_data" or not bits[y][x]]
+        if not pool:
+            return None
+        cells = rng.sample(pool, rng.randint(1, min(3, len(pool))))
+        vals = [Fraction(rng.randint(100, 999) * rng.choice((-1, 1)), rng.choice((1, 1, 4))) for _ in cells]
+        if which == "edit_data":
+            vals = [abs(v) for v in vals]
+        return {"op": which, "cells": [list(c) for c in cells], "values": qlist(vals)}
+
+    FAULTS = ("zoom_bad_buffer", "resize_short_shape", "resize_negative", "resize_float", "pad_short_kernel",
+              "mask_resize_short", "ctor_wrong_length", "util_1d", "apply_mask_wrong_shape")
+    MASK_DERIVE = ("copy", "deepcopy", "slice", "with_new_array", "ctor")
+    ARR_DERIVE = ("copy", "deepcopy", "add0", "mul1", "negneg", "with_new_array")
+
+    def _history_cases(self, tier, rng):
+        quick = tier == "quick"
+        kernels = [(1, 1), (3, 3), (1, 3), (3, 5), (5, 3)]
+
+        def case(tag, worlds, ops, **extra):
+            kh, kw = extra.pop("kernel", None) or rng.choice(kernels)
+            return {"tag": tag, "kind": "history", "worlds": worlds, "kernel": [kh, kw], "ops": ops, **extra}
+
+        # (i-a) enumerated: a read, an in-place edit that unmasks a pixel far outside the old bounding square,
+        #       the same read, the edit undone, the same read — every corner, every buffer, every write route
+        vias = itertools.cycle(("item", "boolkey", "slice"))
+        for (h, w) in ((7, 9), (6, 5), (9, 6)):
+            cy, cx = h // 2, w // 2
+            for corner in ((0, 0), (0, w - 1), (h - 1, 0), (h - 1, w - 1)):
+                for buf in (0, 1, 2):
+                    m = gen.full(h, w, True)
+                    m[cy][cx] = False
+                    if (corner[0] + corner[1] + buf) % 2:
+                        m[cy][cx - 1] = False
+                    via = next(vias)
+                    y, x = corner
+                    ed = {"op": "edit_mask", "value": 0, "via": via}
+                    ed.update({"rect": [y, y + 1, x, x + 1]} if via == "slice" else {"cells": [[y, x]]})
+                    ops = [{"op": "zoom", "buffer": buf}, ed, {"op": "zoom", "buffer": buf},
+                           {"op": "edit_mask", "cells": [[y, x]], "value": 1, "via": "item"},
+                           {"op": "zoom", "buffer": buf}]
+                    if buf == 1:
+                        ops.insert(0, {"op": "decoy"})
+                    yield case("hist_zoom_edit_enum", [self._world(rng, h, w, m=m)], ops)
+        # (i-b) every observing API: read -> in-place edit (mask or values) -> the SAME read -> ...
+        for _ in range(140 if quick else 1400):
+            h, w = rng.randint(2, 7), rng.randint(2, 8)
+            W = self._world(rng, h, w)
+            bits = self._bits2(W)
+            focus = self._rand_read(rng, h, w, bits, kinds=("zoom", "zoom", "resize", "pad", "mask_resize",
+                                                            "apply_mask", "trim"))
+            ops = []
+            if rng.random() < 0.3:
+                ops.append({"op": "decoy"})
+            ops.append(dict(focus))
+            for _e in range(rng.randint(1, 3)):
+                r = rng.random()
+                ed = self._rand_mask_edit(rng, h, w, bits) if r < 0.6 else \
+                    self._rand_value_edit(rng, h, w, bits, "edit_values" if r < 0.85 else "edit_data")
+                if ed is None:
+                    continue
+                ops.append(ed)
+                if rng.random() < 0.25:
+                    ops.append({"op": "decoy"})
+                if focus["op"] == "zoom" and all(b for row in bits for b in row):
+                    continue
+                ops.append(dict(focus))
+                if rng.random() < 0.4:
+                    ops.append(self._rand_read(rng, h, w, bits))
+            yield case("hist_edit_reread", [W], ops)
+        # (ii) near-duplicate twins: the same calls on a world and on its copy with ONE ingredient perturbed
+        #      by 2^-20 relative (or 2^-33 absolute on tiny values), alternating
+        twin_axes = ("scales", "origin", "values", "tiny_values", "noise", "pad", "values_shared_mask")
+        for i in range(84 if quick else 840):
+            axis = twin_axes[i % len(twin_axes)]
+            h, w = rng.randint(2, 6), rng.randint(2, 7)
+            A = self._world(rng, h, w, store_native=False)
+            B = {**A}
+            one = 1 + self.P20
+            extra = {}
+            if axis == "scales":
+                B["scales"] = qlist([Fraction(v) * one for v in A["scales"]])
+            elif axis == "origin":
+                B["origin"] = qlist([Fraction(v) * one if Fraction(v) != 0 else self.P20 for v in A["origin"]])
+            elif axis in ("values", "values_shared_mask"):
+                B["native"] = qlist([Fraction(v) * one for v in A["native"]])
+                if axis == "values_shared_mask":
+                    extra["share_mask"] = True
+            elif axis == "tiny_values":
+                A["native"] = qlist([Fraction(v) * self.P33 for v in A["native"]])
+                B["native"] = qlist([Fraction(v) + self.P33 * rng.choice((-1, 1)) for v in A["native"]])
+            elif axis == "noise":
+                B["noise"] = qlist([Fraction(v) * one for v in A["noise"]])
+            bits = self._bits2(A)
+            kinds = {"scales": ("resize", "pad", "mask_resize", "apply_mask", "zoom"),
+                     "origin": ("resize", "pad", "mask_resize", "apply_mask"),
+                     "noise": ("apply_mask",), "pad": ("util_resize",)}.get(
+                axis, ("zoom", "resize", "pad", "trim", "apply_mask", "util_resize"))
+            ops = []
+            for _r in range(rng.randint(1, 3)):
+                rd = self._rand_read(rng, h, w, bits, kinds=kinds)
+                rd2 = dict(rd)
+                if axis == "pad":
+                    rd2["pad"] = q(Fraction(rd["pad"]) + self.P33)
+                first = rng.choice((0, 1))
+                ops += [{**(rd if first == 0 else rd2), "w": first}, {**(rd2 if first == 0 else rd), "w": 1 - first},
+                        {**(rd if first == 0 else rd2), "w": first}]
+            yield case(f"hist_twin_{axis}", [A, B], ops, **extra)
+        # (iii) fault then reuse: a call that raises in the middle of API X, then an in-place edit, then X again on
+        #       the same objects (every fault kind in turn; the all-masked zoom raises inside zoom_region)
+        interrupted = {"zoom_bad_buffer": ("zoom",), "zoom": ("zoom",), "resize_short_shape": ("resize",),
+                       "resize_negative": ("resize",), "resize_float": ("resize",), "pad_short_kernel": ("pad",),
+                       "mask_resize_short": ("mask_resize",), "ctor_wrong_length": ("zoom", "resize", "trim"),
+                       "util_1d": ("util_resize",), "apply_mask_wrong_shape": ("apply_mask",)}
+        fault_kinds = list(self.FAULTS) + ["zoom"]
+        for i in range(120 if quick else 1200):
+            what = fault_kinds[i % len(fault_kinds)]
+            h, w = rng.randint(2, 6), rng.randint(2, 7)
+            W = self._world(rng, h, w)
+            if i % 5 == 4 and what != "zoom":
+                W["readonly"] = True
+            bits = self._bits2(W)
+            focus = self._rand_read(rng, h, w, bits, kinds=interrupted[what])
+            ops = [dict(focus)] if rng.random() < 0.6 else []
+            if what == "zoom":
+                # zoom of an all-masked mask raises inside zoom_region; then pixels are unmasked by hand
+                ops.append({"op": "edit_mask", "rect": [0, h, 0, w], "value": 1, "via": "slice"})
+                ops.append({"op": "fault", "what": "zoom", "buffer": rng.choice((0, 1, 2))})
+                bits = [[True] * w for _ in range(h)]
+                ops.append(self._rand_mask_edit(rng, h, w, bits, prefer=0))
+                ops.append({"op": "zoom", "buffer": rng.choice((0, 1, 2))})
+                yield case("hist_fault_reuse", [W], ops)
+                continue
+            for _f in range(rng.randint(1, 2)):
+                ops.append({"op": "fault", "what": what})
+                if rng.random() < 0.3:
+                    ops.append(self._rand_read(rng, h, w, bits, kinds=("resize", "mask_resize", "util_resize", "pad")))
+                if not W.get("readonly"):
+                    ed = self._rand_mask_edit(rng, h, w, bits) if rng.random() < 0.7 else \
+                        self._rand_value_edit(rng, h, w, bits)
+                    if ed:
+                        ops.append(ed)
+                if focus["op"] == "zoom" and all(b for row in bits for b in row):
+                    break
+                if focus["op"] == "trim":
+                    focus = self._rand_read(rng, h, w, bits, kinds=("trim",))
+                ops.append(dict(focus))
+                if rng.random() < 0.4:
+                    ops.append(self._rand_read(rng, h, w, bits))
+            yield case("hist_fault_reuse", [W], ops)
+        # (iv) two different worlds, ONE psf / over-sampling configuration (and optionally one mask object for two
+        #      value arrays), the same reads interleaved in both orders
+        for i in range(80 if quick else 800):
+            shared_mask = i % 4 == 0
+            h, w = rng.randint(2, 6), rng.randint(2, 7)
+            A = self._world(rng, h, w, store_native=False)
+            if shared_mask:
+                B = {**A, "native": qlist(_values(rng, h * w)),
+                     "noise": qlist([abs(v) for v in _values(rng, h * w, signed=False)])}
+                h2, w2 = h, w
+            else:
+                same_shape = rng.random() < 0.5
+                h2, w2 = (h, w) if same_shape else (rng.randint(2, 6), rng.randint(2, 7))
+                B = self._world(rng, h2, w2)
+            bA, bB = self._bits2(A), self._bits2(B)
+            if shared_mask:
+                bB = bA
+            ops = []
+            for _r in range(rng.randint(2, 4)):
+                first = rng.choice((0, 1))
+                for wi in (first, 1 - first, first):
+                    hh, ww, bb = (h, w, bA) if wi == 0 else (h2, w2, bB)
+                    if _r == 0 or rng.random() < 0.6:
+                        ops.append({**self._rand_read(rng, hh, ww, bb, kinds=("apply_mask", "apply_mask", "zoom",
+                                                                               "resize", "pad", "mask_resize")),
+                                    "w": wi})
+                if rng.random() < 0.5:
+                    wi = rng.choice((0, 1))
+                    hh, ww, bb = (h, w, bA) if wi == 0 else (h2, w2, bB)
+                    ed = self._rand_mask_edit(rng, hh, ww, bb)
+                    if ed:
+                        ops.append({**ed, "w": wi})
+            yield case("hist_shared_" + ("mask" if shared_mask else "config"), [A, B], ops,
+                       **({"share_mask": True} if shared_mask else {}))
+        # (v) decoy reads of every sibling quantity first; derived objects (copies, slices, arithmetic) edited
+        for i in range(100 if quick else 1000):
+            h, w = rng.randint(2, 7), rng.randint(2, 8)
+            W = self._world(rng, h, w)
+            bits = self._bits2(W)
+            ops = [{"op": "decoy"}] if i % 2 == 0 else [self._rand_read(rng, h, w, bits)]
+            for _r in range(rng.randint(1, 3)):
+                r = rng.random()
+                if r < 0.45:
+                    ops.append({"op": "derive", "what": "mask", "how": rng.choice(self.MASK_DERIVE)})
+                elif r < 0.75:
+                    ops.append({"op": "derive", "what": "arr", "how": rng.choice(self.ARR_DERIVE)})
+                else:
+                    ops.append({"op": "decoy"})
+                if rng.random() < 0.7:
+                    ed = self._rand_mask_edit(rng, h, w, bits) if rng.random() < 0.6 else \
+                        self._rand_value_edit(rng, h, w, bits)
+                    if ed:
+                        ops.append(ed)
+                ops.append(self._rand_read(rng, h, w, bits))
+                if rng.random() < 0.5:
+                    ops.append(self._rand_read(rng, h, w, bits))
+            yield case("hist_decoy_derive", [W], ops)
+
+    # ------------------------------------------------------------------ round 4: constant-directed large cases
+    def generate_large(self, hints, rng):
+        """sizes on both sides of every new integer constant, in EVERY size dimension C14's code loops over:
+        target / source frame pixels (non-square, strips = axis length), unmasked pixels, kernel side and kernel
+        pixels, zoom window, extraction window, padded frame, buffer.  Cheapest first; bounded total work."""
+        import math
+
+        hints = [c for c in sorted(set(int(c) for c in hints)) if c >= 8]
+        if not hints:
+            return
+        per_hint = LARGE_TOTAL_CAP // len(hints)
+        geoms = [{"scales": ["1/2", "1/4"], "origin": ["3/2", "-5/4"]},
+                 {"scales": ["2", "1/2"], "origin": ["-1/4", "3"]},
+                 {"scales": ["1", "1"], "origin": ["0", "0"]}]
+
+        def src_dim(target, mix, small):
+            """a small source length <= target whose parity differs from / equals the target's"""
+            want = (target + 1) % 2 if mix else target % 2
+            for cand in (small, small - 1):
+                if cand % 2 == want and 1 <= cand <= target:
+                    return cand
+            cand = target if target % 2 == want else target - 1
+            return max(1, cand)
+
+        for c in hints:
+            pts = [n for n in (c - 1, c, c + 1, c + c // 3 + 1, 2 * c + 1) if n >= 2]
+            items = []   # (priority, estimated work, case)
+
+            def add(prio, work, case_):
+                # both sides of the constant (c-1, c) of every family before the farther points of any family
+                if work <= LARGE_CASE_CAP:
+                    items.append((prio if prio == 9 else 2 * prio + (0 if pi <= 1 else 1), work,
+                                  {"kind": "large", "hint": c, **case_}))
+
+            for pi, n in enumerate(pts):
+                shapes = _shapes_for(n, up=n >= c)
+                g = geoms[pi % len(geoms)]
+                # A. raw resize there and back: target frame ~ n pixels; y changes parity one way, x the other,
+                #    then both parities kept
+                for si, (H2, W2) in enumerate(shapes):
+                    for mix in (True, False):
+                        h, w = src_dim(H2, mix, 41), src_dim(W2, mix, 34)
+                        add(0 if si < 2 else 1, 2 * H2 * W2,
+                            {"tag": "large_util_resize", "op": "util_rt", "h": h, "w": w, "shape": [H2, W2],
+                             "pad": "-3/4", "quarter": mix})
+                # ... both frames large: source ~ n, target one / two pixels larger per axis
+                H, W = shapes[0]
+                add(1, 3 * (H + 2) * (W + 4), {"tag": "large_util_resize_big_src", "op": "util_rt", "h": H, "w": W,
+                                               "shape": [H + 1, W + 3], "pad": "5/2"})
+                add(2, 3 * (H + 2) * (W + 4), {"tag": "large_util_resize_big_src", "op": "util_rt", "h": H, "w": W,
+                                               "shape": [H + 2, W + 4], "pad": "5/2"})
+                # ... big source cropped to a small target (single step)
+                add(1, H * W // 4 + 2000, {"tag": "large_util_crop", "op": "util_rt", "h": H, "w": W,
+                                           "shape": [src_dim(H, True, 40), src_dim(W, False, 33)], "pad": "0"})
+                # B. Array2D / Mask2D.resized_from there and back (values, mask with pad 0 / 1, coordinates)
+                for si, (H2, W2) in enumerate(shapes[:3]):
+                    for mix in (True, False):
+                        h, w = src_dim(H2, mix, 37), src_dim(W2, mix, 30)
+                        spec = {"t": "rects", "rects": [[h // 4, h // 4 + max(1, h // 2), w // 3, w // 3 + max(1, w // 3)]],
+                                "holes": [], "extra": [[0, w - 1], [h - 1, 0]]}
+                        steps = [{"k": "resize", "shape": [H2, W2], "mask_pad": (pi + si) % 2},
+                                 {"k": "resize", "shape": [h, w], "mask_pad": 0}]
+                        add(si, 7 * H2 * W2,
+                            {"tag": "large_array_resize", "op": "array_chain", "h": h, "w": w, "maskspec": spec, **g,
+                             "store_native": mix, "steps": steps, "roundtrip": True, "quarter": not mix})
+                        if si < 2:
+                            add(1 if si == 0 else 2, 4 * H2 * W2,
+                                {"tag": "large_mask_resize", "op": "mask_chain", "h": h, "w": w, "maskspec": spec, **g,
+                                 "steps": steps, "roundtrip": True})
+                # ... frame ~ n: pad for an odd kernel then trim; unmasked pixels ~ n (a band of a larger frame)
+                add(1 if H >= 3 else 9, 25 * H * W, {"tag": "large_pad_trim", "op": "array_chain", "h": H, "w": W,
+                                   "maskspec": {"t": "rects", "rects": [[1, H - 1, 0, W]], "holes": [[H // 2, W // 2]]},
+                                   **g, "store_native": False, "roundtrip": True,
+                                   "steps": [{"k": "pad", "kernel": [3, 5], "mask_pad": 1}, {"k": "trim", "kernel": [3, 5]}]})
+                Hb, Wb = H + 2, W + 1
+                if Hb * Wb >= n + 3:
+                    add(1, 20 * Hb * Wb, {"tag": "large_unmasked_count", "op": "array_chain", "h": Hb, "w": Wb,
+                                         "maskspec": {"t": "band", "start": 2, "count": n}, **g, "store_native": True,
+                                         "roundtrip": True,
+                                         "steps": [{"k": "resize", "shape": [Hb + 1, Wb + 2], "mask_pad": 1},
+                                                   {"k": "resize", "shape": [Hb, Wb], "mask_pad": 0}]})
+                roomy = H >= 6 and W >= 10
+                # C. zoom: frame ~ n with a small off-centre blob and one far pixel; unmasked ~ n (window ~ frame)
+                add(1 if roomy else 9, H * W // 2 + 20000, {"tag": "large_zoom_frame", "op": "zoom", "h": H, "w": W, **g,
+                                           "maskspec": {"t": "rects", "rects": [[2, 5, W - 9, W - 4]], "holes": [[3, W - 6]],
+                                                        "extra": [[min(H - 1, 40), W - 1]]}, "buffer": 1})
+                side = max(Hb, Wb) + 4
+                if Hb * Wb >= n + 3:
+                    add(1, 8 * side * side, {"tag": "large_zoom_unmasked", "op": "zoom", "h": Hb, "w": Wb, **g,
+                                             "maskspec": {"t": "band", "start": 1, "count": n}, "buffer": 2})
+                # D. Imaging.apply_mask: frame ~ n; kernel footprint inside the frame / leaving it by one row
+                add(1 if roomy else 9, 50 * H * W, {"tag": "large_apply_mask_fits", "op": "apply_mask", "h": H, "w": W, **g,
+                                    "kernel": [3, 5], "maskspec": {"t": "rects", "rects": [[1, H - 1, 2, W - 2]],
+                                                                   "holes": [[H // 2, W // 3]]}})
+                add(1 if roomy else 9, 60 * H * W, {"tag": "large_apply_mask_pads", "op": "apply_mask", "h": H, "w": W, **g,
+                                    "kernel": [5, 3], "maskspec": {"t": "rects", "rects": [[1, H, 1, W - 1]],
+                                                                   "holes": [[H // 2, W // 3]]}})
+                # E. raw extraction: window ~ n leaving a small frame on every side; frame ~ n, window one pixel
+                #    larger on every side
+                a = max(1, math.isqrt(n) - 2)
+                b = max(1, n // a)
+                add(1, 2 * a * b, {"tag": "large_extract_window", "op": "util_extract", "h": 9, "w": 7,
+                                   "win": [-(a // 2), a - a // 2, -(b // 3), b - b // 3]})
+                add(1, 2 * (H + 2) * (W + 2), {"tag": "large_extract_frame", "op": "util_extract", "h": H, "w": W,
+                                               "win": [-1, H + 1, -1, W + 1]})
+                # F. trimmed_array_from: padded frame ~ n
+                add(1, 6 * H * W, {"tag": "large_mask_trim", "op": "mask_trim", "image_shape": [H - 2, W - 4],
+                                           "kernel": [3, 5], **g}) if H > 2 and W > 4 else None
+                # G. kernel side ~ n (odd), kernel pixels ~ n: only shape arithmetic + the padded frame
+                k_odd = n if n % 2 else n + 1
+                for kh, kw in ((k_odd, 3), (3, k_odd)):
+                    add(1, 9 * (5 + kh) * (4 + kw),
+                        {"tag": "large_kernel_side", "op": "array_chain", "h": 5, "w": 4, **g, "store_native": False,
+                         "maskspec": {"t": "rects", "rects": [[0, 3, 1, 4]], "holes": []}, "roundtrip": True,
+                         "steps": [{"k": "pad", "kernel": [kh, kw], "mask_pad": 1}, {"k": "trim", "kernel": [kh, kw]}]})
+                    add(2, 6 * (5 + kh) * (4 + kw),
+                        {"tag": "large_kernel_side_trim", "op": "mask_trim", "image_shape": [5, 4], "kernel": [kh, kw], **g})
+                ka = max(1, math.isqrt(n)) | 1
+                kb = max(1, n // ka) | 1
+                add(1, 9 * (6 + ka) * (5 + kb),
+                    {"tag": "large_kernel_pixels", "op": "array_chain", "h": 6, "w": 5, **g, "store_native": True,
+                     "maskspec": {"t": "rects", "rects": [[1, 4, 0, 5]], "holes": [[2, 2]]}, "roundtrip": True,
+                     "steps": [{"k": "pad", "kernel": [ka, kb], "mask_pad": 0}, {"k": "trim", "kernel": [ka, kb]}]})
+                add(2, 6 * 30 * ka * kb + 9 * (6 + ka) * (5 + kb),
+                    {"tag": "large_kernel_pixels_apply_mask", "op": "apply_mask", "h": 6, "w": 5, **g, "kernel": [ka, kb],
+                     "maskspec": {"t": "rects", "rects": [[2, 4, 1, 4]], "holes": []}})
+                # H. buffer ~ n (window (s + 2n)^2)
+                add(2, 6 * (2 * n + 6) ** 2, {"tag": "large_zoom_buffer", "op": "zoom", "h": 5, "w": 6, **g,
+                                             "maskspec": {"t": "rects", "rects": [[1, 3, 2, 5]], "holes": []}, "buffer": n})
+            items = [t for t in items if t[0] != 9]   # 9 = frame too small for this family's mask layout
+            items.sort(key=lambda t: (t[0], t[1]))
+            spent = 0
+            for prio, work, case_ in items:
+                if spent + work > per_hint:
+                    continue
+                spent += work
+                yield case_
+
     def _apply_mask_case(self, rng, m, kh, kw, tag):
         h, w = len(m), len(m[0])
         return {"tag": tag, "kind": "apply_mask", "mask": mask_json(m), **_geom_case(rng),
@@ -509,14 +1299,7 @@ class C14(PropertyCheck):
             mask = self._mask2d(aa, case)
             obs = {"init": self._mask_obs(mask), "steps": []}
             for s in case["steps"]:
-                if s["mask_pad"] == 0 and self._var(case).get("omit_defaults"):
-                    mask = mask.resized_from(new_shape=self._shp(case, s["shape"]))
-                else:
-                    mask = mask.resized_from(new_shape=self._shp(case, s["shape"]),
-                                             pad_value=self._padv(case, s["mask_pad"]))
-                o = self._mask_obs(mask)
-                g = np.asarray(aa.Grid2D.from_mask(mask=mask).array).reshape(-1, 2)
-                o["grid"] = [qlist(p) for p in g]
+                mask, o = self._mask_step(aa, case, mask, s)
                 obs["steps"].append(o)
             return obs
         if kind == "array_chain":
@@ -524,16 +1307,8 @@ class C14(PropertyCheck):
             h, w = case["mask"]["h"], case["mask"]["w"]
             arr = self._make_array(aa, case, mask, "native", h, w, store_native=case["store_native"])
             obs = {"init": self._arr_obs(aa, arr), "steps": []}
-            omit = self._var(case).get("omit_defaults")
             for s in case["steps"]:
-                kwp = {} if (s.get("mask_pad", 0) == 0 and omit) else \
-                    {"mask_pad_value": self._padv(case, s.get("mask_pad", 0))}
-                if s["k"] == "resize":
-                    arr = arr.resized_from(new_shape=self._shp(case, s["shape"]), **kwp)
-                elif s["k"] == "pad":
-                    arr = arr.padded_before_convolution_from(kernel_shape=self._shp(case, s["kernel"]), **kwp)
-                else:
-                    arr = arr.trimmed_after_convolution_from(kernel_shape=self._shp(case, s["kernel"]))
+                arr = self._array_step(case, arr, s)
                 obs["steps"].append(self._arr_obs(aa, arr))
             return obs
         if kind == "mask_trim":
@@ -585,21 +1360,415 @@ class C14(PropertyCheck):
             mask = self._mask2d(aa, case)
             h, w = case["mask"]["h"], case["mask"]["w"]
             arr = self._make_array(aa, case, mask, "native", h, w)
-            region = [int(v) for v in mask.zoom_region]
-            if case["buffer"] == 1 and self._var(case).get("omit_defaults"):
-                z = arr.zoomed_around_mask()
-            elif self._var(case).get("shp") == "npint":
-                z = arr.zoomed_around_mask(buffer=np.int64(case["buffer"]))
-            else:
-                z = arr.zoomed_around_mask(buffer=case["buffer"])
-            return {"region": region, "shape": [int(v) for v in z.shape_native],
-                    "native": qlist(np.asarray(z.native.array).ravel()),
-                    "scales": qlist(z.mask.pixel_scales)}
+            return self._zoom_obs(case, mask, arr)
+        if kind == "large":
+            return self._run_large(aa, case)
+        if kind == "history":
+            return self._run_history(aa, case)
         raise ValueError(kind)
 
+    # -- single steps shared by the ordinary kinds and the histories --------------------------------
+    def _mask_step(self, aa, case, mask, s):
+        if s["mask_pad"] == 0 and self._var(case).get("omit_defaults"):
+            mask = mask.resized_from(new_shape=self._shp(case, s["shape"]))
+        else:
+            mask = mask.resized_from(new_shape=self._shp(case, s["shape"]),
+                                     pad_value=self._padv(case, s["mask_pad"]))
+        o = self._mask_obs(mask)
+        g = np.asarray(aa.Grid2D.from_mask(mask=mask).array).reshape(-1, 2)
+        o["grid"] = [qlist(p) for p in g]
+        return mask, o
+
+    def _array_step(self, case, arr, s):
+        omit = self._var(case).get("omit_defaults")
+        kwp = {} if (s.get("mask_pad", 0) == 0 and omit) else \
+            {"mask_pad_value": self._padv(case, s.get("mask_pad", 0))}
+        if s["k"] == "resize":
+            return arr.resized_from(new_shape=self._shp(case, s["shape"]), **kwp)
+        if s["k"] == "pad":
+            return arr.padded_before_convolution_from(kernel_shape=self._shp(case, s["kernel"]), **kwp)
+        return arr.trimmed_after_convolution_from(kernel_shape=self._shp(case, s["kernel"]))
+
+    def _zoom_obs(self, case, mask, arr):
+        region = [int(v) for v in mask.zoom_region]
+        if case["buffer"] == 1 and self._var(case).get("omit_defaults"):
+            z = arr.zoomed_around_mask()
+        elif self._var(case).get("shp") == "npint":
+            z = arr.zoomed_around_mask(buffer=np.int64(case["buffer"]))
+        else:
+            z = arr.zoomed_around_mask(buffer=case["buffer"])
+        return {"region": region, "shape": [int(v) for v in z.shape_native],
+                "native": qlist(np.asarray(z.native.array).ravel()),
+                "scales": qlist(z.mask.pixel_scales)}
+
+    # ------------------------------------------------------------------ large cases (implementation + verdict)
+    @staticmethod
+    def _lgeom(case):
+        sc = tuple(float(Fraction(v)) for v in case.get("scales", ["1", "1"]))
+        og = tuple(float(Fraction(v)) for v in case.get("origin", ["0", "0"]))
+        return sc, og
+
+    @staticmethod
+    def _lsnap_mask(aa, mask):
+        return {"mask": np.asarray(mask).astype(bool),
+                "scales": tuple(float(v) for v in mask.pixel_scales), "origin": tuple(float(v) for v in mask.origin),
+                "grid": np.asarray(aa.Grid2D.from_mask(mask=mask).array, dtype=float).reshape(-1, 2)}
+
+    def _lsnap(self, aa, arr):
+        return {**self._lsnap_mask(aa, arr.mask),
+                "native": np.asarray(arr.native.array, dtype=float),
+                "slim": np.asarray(arr.slim.array, dtype=float).ravel(),
+                "store_native": bool(arr.store_native)}
+
+    @staticmethod
+    def _ldigest(a):
+        a = np.ascontiguousarray(a)
+        import hashlib
+        return {"shape": [int(v) for v in a.shape], "sha1": hashlib.sha1(a.tobytes()).hexdigest()[:12]}
+
+    def _run_large(self, aa, case):
+        from autoarray.structures.arrays import array_2d_util
+
+        op = case["op"]
+        geom = self._lgeom(case)
+        sc, og = geom
+        quarter = bool(case.get("quarter"))
+        bad, dig = None, {}
+        if op == "util_rt":
+            h, w = case["h"], case["w"]
+            h2, w2 = case["shape"]
+            pad = float(Fraction(case["pad"]))
+            src = _lvals(h, w, quarter)
+            out = np.asarray(array_2d_util.resized_array_2d_from(array_2d=src, resized_shape=(h2, w2), pad_value=pad))
+            dig = self._ldigest(out)
+            bad = _lj_raw_resize(src, out, (h2, w2), pad)
+            if not bad and h2 >= h and w2 >= w:
+                back = np.asarray(array_2d_util.resized_array_2d_from(array_2d=out, resized_shape=(h, w),
+                                                                      pad_value=pad))
+                bad = _lj_raw_resize(out, back, (h, w), pad, what="resized back")
+                if not bad and not np.array_equal(back, src):
+                    bad = (f"enlarging {h}x{w}->{h2}x{w2} then shrinking back is not the identity"
+                           + _first_diff(back, src))
+        elif op == "util_extract":
+            h, w = case["h"], case["w"]
+            y0, y1, x0, x1 = case["win"]
+            src = _lvals(h, w, quarter)
+            out = np.asarray(array_2d_util.extracted_array_2d_from(array_2d=src, y0=y0, y1=y1, x0=x0, x1=x1))
+            dig = self._ldigest(out)
+            if tuple(out.shape) != (y1 - y0, x1 - x0):
+                bad = f"extracted shape {tuple(out.shape)} != window {(y1 - y0, x1 - x0)}"
+            else:
+                exp = _np_window(src, y1 - y0, x1 - x0, y0, x0, 0.0)
+                if not np.array_equal(out, exp):
+                    bad = ("extracted window is not array[y0:y1, x0:x1] with zeros outside the frame"
+                           + _first_diff(out, exp))
+        elif op in ("array_chain", "mask_chain"):
+            h, w = case["h"], case["w"]
+            m = _lmask(case["maskspec"], h, w)
+            mask = aa.Mask2D(mask=m, pixel_scales=sc, origin=og)
+            with_values = op == "array_chain"
+            if with_values:
+                arr = aa.Array2D(values=_lvals(h, w, quarter), mask=mask,
+                                 store_native=bool(case.get("store_native", False)))
+                init = self._lsnap(aa, arr)
+                # the constructor pairs values and mask: state it, so that `init` is tied to the INPUT
+                exp0 = _lvals(h, w, quarter)
+                exp0[m] = 0.0
+                if not (np.array_equal(init["mask"], m) and np.array_equal(init["native"], exp0)):
+                    bad = "Array2D(values, mask) does not hold the input values under the input mask"
+            else:
+                arr = None
+                init = self._lsnap_mask(aa, mask)
+            steps = []
+            if not bad:
+                for s in case["steps"]:
+                    if with_values:
+                        kwp = {"mask_pad_value": int(s.get("mask_pad", 0))} if s["k"] != "trim" else {}
+                        if s["k"] == "resize":
+                            arr = arr.resized_from(new_shape=tuple(s["shape"]), **kwp)
+                        elif s["k"] == "pad":
+                            arr = arr.padded_before_convolution_from(kernel_shape=tuple(s["kernel"]), **kwp)
+                        else:
+                            arr = arr.trimmed_after_convolution_from(kernel_shape=tuple(s["kernel"]))
+                        steps.append(self._lsnap(aa, arr))
+                    else:
+                        mask = mask.resized_from(new_shape=tuple(s["shape"]), pad_value=int(s.get("mask_pad", 0)))
+                        steps.append(self._lsnap_mask(aa, mask))
+                bad = _lj_chain(case, geom, init, steps, with_values)
+                dig = {"steps": [self._ldigest(s["native"] if with_values else s["mask"]) for s in steps],
+                       "unmasked": [int((~s["mask"]).sum()) for s in steps]}
+        elif op == "mask_trim":
+            ih, iw = case["image_shape"]
+            hp, wp = ih + case["kernel"][0] - 1, iw + case["kernel"][1] - 1
+            pm = aa.Mask2D.all_false(shape_native=(hp, wp), pixel_scales=sc, origin=og)
+            vals = _lvals(hp, wp, quarter)
+            pa = aa.Array2D.no_mask(values=vals, pixel_scales=sc, origin=og)
+            out = pm.trimmed_array_from(padded_array=pa, image_shape=(ih, iw))
+            nat = np.asarray(out.native.array, dtype=float)
+            dig = self._ldigest(nat)
+            if tuple(nat.shape) != (ih, iw):
+                bad = f"trimmed shape {tuple(nat.shape)} != image shape {(ih, iw)}"
+            elif not np.array_equal(nat, _np_window(vals, ih, iw, (hp - ih) // 2, (wp - iw) // 2, 0.0)):
+                bad = "trimmed array is not the centred crop of the padded array"
+            elif tuple(float(v) for v in out.mask.pixel_scales) != sc or tuple(float(v) for v in out.mask.origin) != og:
+                bad = "trimmed array lost the pixel scales / origin of the mask"
+        elif op == "zoom":
+            h, w = case["h"], case["w"]
+            m = _lmask(case["maskspec"], h, w)
+            vals = _lvals(h, w, quarter)
+            mask = aa.Mask2D(mask=m, pixel_scales=sc, origin=og)
+            arr = aa.Array2D(values=vals, mask=mask)
+            region = [int(v) for v in mask.zoom_region]
+            z = np.asarray(arr.zoomed_around_mask(buffer=case["buffer"]).native.array, dtype=float)
+            dig = {"region": region, **self._ldigest(z)}
+            bad = _lj_zoom(m, vals, case["buffer"], region, z)
+        elif op == "apply_mask":
+            h, w = case["h"], case["w"]
+            m = _lmask(case["maskspec"], h, w)
+            data = _lvals(h, w, quarter)
+            noise = np.abs(_lvals(h, w, quarter, salt=5)) + 1.0
+            kh, kw = case["kernel"]
+            d = aa.Array2D.no_mask(values=data, pixel_scales=sc, origin=og)
+            n = aa.Array2D.no_mask(values=noise, pixel_scales=sc, origin=og)
+            psf = aa.Kernel2D.no_mask(values=np.ones((kh, kw)), pixel_scales=sc)
+            mask = aa.Mask2D(mask=m, pixel_scales=sc, origin=og)
+            ds = aa.Imaging(data=d, noise_map=n, psf=psf).apply_mask(mask=mask)
+            o = {"padded": tuple(ds.data.shape_native) != (h, w), "data": self._lsnap(aa, ds.data),
+                 "noise": self._lsnap(aa, ds.noise_map),
+                 "grid_uniform": np.asarray(ds.grids.uniform.array, dtype=float).reshape(-1, 2),
+                 "ds_mask": np.asarray(ds.mask).astype(bool)}
+            dig = {"padded": o["padded"], **self._ldigest(o["data"]["native"])}
+            bad = _lj_apply_mask(m, data, noise, geom, o)
+        else:
+            raise ValueError(op)
+        return {"large": True, "verdict": {"holds": bad is None, "detail": bad or ""}, "digest": dig}
+
+    # ------------------------------------------------------------------ histories (implementation)
+    @staticmethod
+    def _decoy(aa, mask, arr, ds=None):
+        """read every public derived quantity (property / cached property) of the objects involved and a few
+        sibling methods; results are discarded, exceptions of individual reads ignored"""
+        import inspect
+
+        def sweep(obj, depth):
+            n = 0
+            for name in dir(type(obj)):
+                if name.startswith("_") or any(s in name for s in ("hdu", "header", "fits", "output", "w_tilde",
+                                                                   "convolver")):
+                    continue
+                try:
+                    a = inspect.getattr_static(type(obj), name)
+                except AttributeError:
+                    continue
+                if isinstance(a, (classmethod, staticmethod)) or inspect.isfunction(a) or not hasattr(a, "__get__"):
+                    continue
+                try:
+                    v = getattr(obj, name)
+                    n += 1
+                except Exception:
+                    continue
+                if depth == 0 and name.startswith("derive_"):
+                    n += sweep(v, 1)
+            return n
+
+        n = sweep(mask, 0)
+        if arr is not None:
+            n += sweep(arr, 1)
+            for f in (lambda: arr.extent_of_zoomed_array(buffer=1), lambda: arr.zoomed_around_mask(buffer=3),
+                      lambda: arr.resized_from(new_shape=(3, 2)),
+                      lambda: arr.padded_before_convolution_from(kernel_shape=(3, 3)),
+                      lambda: mask.resized_from(new_shape=(2, 3), pad_value=1),
+                      lambda: aa.Grid2D.from_mask(mask=mask)):
+                try:
+                    f()
+                except Exception:
+                    pass
+        if ds is not None:
+            for f in (lambda: ds.grids.uniform, lambda: ds.grids.blurring, lambda: ds.signal_to_noise_map,
+                      lambda: ds.mask.is_all_false, lambda: ds.shape_native):
+                try:
+                    f()
+                except Exception:
+                    pass
+        return n
+
+    def _run_history(self, aa, case):
+        import copy as _copy
+        from autoarray.structures.arrays import array_2d_util
+        from autoarray.dataset.over_sampling import OverSamplingDataset
+
+        kh, kw = case.get("kernel", [3, 3])
+        shared = {}
+        worlds = []
+        for i, W in enumerate(case["worlds"]):
+            if i == 1 and case.get("share_mask"):
+                mask = worlds[0]["mask"]
+            else:
+                mask = self._mask2d(aa, {"mask": W["mask"], "scales": W["scales"], "origin": W["origin"],
+                                         "variant": case.get("variant")})
+            worlds.append({"mask": mask, "arr": None, "ds0": None, "readonly": bool(W.get("readonly"))})
+
+        def fvals(W, q_list, h, w):
+            a = np.array([float(Fraction(v)) for v in q_list]).reshape(h, w)
+            if W["readonly"]:
+                a.setflags(write=False)
+            return a
+
+        def need_arr(W, st):
+            if W["arr"] is None:
+                W["arr"] = aa.Array2D(values=fvals(W, st["native"], st["h"], st["w"]), mask=W["mask"],
+                                      store_native=st["store_native"])
+            return W["arr"]
+
+        def need_ds(W, st):
+            if W["ds0"] is None:
+                sc = tuple(float(Fraction(v)) for v in st["scales"])
+                og = tuple(float(Fraction(v)) for v in st["origin"])
+                if "psf" not in shared:   # ONE kernel and ONE over-sampling configuration for every world
+                    shared["psf"] = aa.Kernel2D.no_mask(values=np.ones((kh, kw)), pixel_scales=sc)
+                    shared["os"] = OverSamplingDataset()
+                d = aa.Array2D.no_mask(values=fvals(W, st["native"], st["h"], st["w"]), pixel_scales=sc, origin=og)
+                n = aa.Array2D.no_mask(values=fvals(W, st["noise"], st["h"], st["w"]), pixel_scales=sc, origin=og)
+                W["ds0"] = aa.Imaging(data=d, noise_map=n, psf=shared["psf"], over_sampling=shared["os"])
+            return W["ds0"]
+
+        def observe(W, st, op, sub):
+            k = op["op"]
+            if k == "zoom":
+                return self._zoom_obs(sub, W["mask"], need_arr(W, st))
+            if k in ("resize", "pad", "trim"):
+                arr = need_arr(W, st)
+                return {"init": self._arr_obs(aa, arr),
+                        "steps": [self._arr_obs(aa, self._array_step(sub, arr, sub["steps"][0]))]}
+            if k == "mask_resize":
+                return {"init": self._mask_obs(W["mask"]),
+                        "steps": [self._mask_step(aa, sub, W["mask"], sub["steps"][0])[1]]}
+            if k == "apply_mask":
+                ds = need_ds(W, st).apply_mask(mask=W["mask"])
+                return self._ds_obs(aa, ds, st["h"], st["w"])
+            if k == "util_resize":
+                return self.run_impl(sub)
+            raise ValueError(k)
+
+        obs = []
+        for op, wi, st, sub in _hist_walk(case):
+            W = worlds[wi]
+            k = op["op"]
+            h, w = st["h"], st["w"]
+            if sub is not None:
+                try:
+                    obs.append(observe(W, st, op, sub))
+                except Exception as e:  # recorded as this step's observation
+                    obs.append({"err": type(e).__name__, "msg": str(e)[:200]})
+                continue
+            if k == "edit_mask":
+                v = bool(op["value"])
+                via = op.get("via", "item")
+                if "rect" in op:
+                    y0, y1, x0, x1 = op["rect"]
+                    W["mask"][y0:y1, x0:x1] = v
+                elif via == "boolkey":
+                    key = np.zeros((h, w), dtype=bool)
+                    for y, x in op["cells"]:
+                        key[y, x] = True
+                    W["mask"][key] = v
+                else:
+                    for y, x in op["cells"]:
+                        W["mask"][y, x] = v
+                for W2 in worlds:   # arrays paired with the edited mask object are rebuilt before their next use
+                    if W2["mask"] is W["mask"]:
+                        W2["arr"] = None
+            elif k == "edit_values":
+                arr = need_arr(W, st)
+                for (y, x), v in zip(op["cells"], op["values"]):
+                    if st["store_native"]:
+                        arr[y, x] = float(Fraction(v))
+                    else:
+                        arr[sum(1 for b in st["bits"][:y * w + x] if not b)] = float(Fraction(v))
+                W["ds0"] = None
+            elif k == "edit_data":
+                ds0 = need_ds(W, st)
+                for (y, x), v in zip(op["cells"], op["values"]):
+                    ds0.data[y * w + x] = float(Fraction(v))
+                W["arr"] = None
+            elif k == "decoy":
+                arr = None
+                try:
+                    arr = need_arr(W, st)
+                except Exception:
+                    pass
+                self._decoy(aa, W["mask"], arr, W["ds0"])
+            elif k == "derive":
+                how = op["how"]
+                if op.get("what", "mask") == "mask":
+                    mk = W["mask"]
+                    W["mask"] = {
+                        "copy": lambda: _copy.copy(mk), "deepcopy": lambda: _copy.deepcopy(mk),
+                        "slice": lambda: mk[:, :], "with_new_array": lambda: mk.with_new_array(np.array(mk).copy()),
+                        "ctor": lambda: aa.Mask2D(mask=mk, pixel_scales=mk.pixel_scales, origin=mk.origin),
+                    }[how]()
+                    W["arr"] = None
+                else:
+                    arr = need_arr(W, st)
+                    W["arr"] = {
+                        "copy": lambda: _copy.copy(arr), "deepcopy": lambda: _copy.deepcopy(arr),
+                        "add0": lambda: arr + 0.0, "mul1": lambda: arr * 1.0, "negneg": lambda: -(-arr),
+                        "with_new_array": lambda: arr.with_new_array(np.array(arr.array).copy()),
+                    }[how]()
+            elif k == "fault":
+                what = op["what"]
+                try:
+                    if what == "zoom":
+                        need_arr(W, st).zoomed_around_mask(buffer=op.get("buffer", 1))
+                    elif what == "zoom_bad_buffer":
+                        need_arr(W, st).zoomed_around_mask(buffer="x")
+                    elif what == "resize_short_shape":
+                        need_arr(W, st).resized_from(new_shape=(h + 2,))
+                    elif what == "resize_negative":
+                        need_arr(W, st).resized_from(new_shape=(-1, w))
+                    elif what == "resize_float":
+                        need_arr(W, st).resized_from(new_shape=(h + 0.5, w))
+                    elif what == "pad_short_kernel":
+                        need_arr(W, st).padded_before_convolution_from(kernel_shape=(3,))
+                    elif what == "mask_resize_short":
+                        W["mask"].resized_from(new_shape=(h + 1,))
+                    elif what == "ctor_wrong_length":
+                        aa.Array2D(values=np.ones(sum(1 for b in st["bits"] if not b) + 1), mask=W["mask"])
+                    elif what == "util_1d":
+                        array_2d_util.resized_array_2d_from(array_2d=np.ones(4), resized_shape=(h, w))
+                    elif what == "apply_mask_wrong_shape":
+                        sc = tuple(float(Fraction(v)) for v in st["scales"])
+                        need_ds(W, st).apply_mask(mask=aa.Mask2D.all_false(shape_native=(h + 1, w), pixel_scales=sc))
+                    else:
+                        raise ValueError(what)
+                except ValueError as e:
+                    if str(e) == what:
+                        raise
+                except Exception:
+                    pass
+            else:
+                raise ValueError(k)
+        return {"steps": obs}
+
     # ------------------------------------------------------------------ model
+    def _hist_subs(self, case):
+        return [(op, sub) for op, _wi, _st, sub in _hist_walk(case) if sub is not None]
+
     def model_requests(self, case, impl_obs):
         kind = case["kind"]
+        if kind == "large":
+            return []   # judged by the vectorised oracle alone
+        if kind == "history":
+            steps = impl_obs.get("steps", []) if isinstance(impl_obs, dict) else []
+            subs = self._hist_subs(case)
+            reqs, spans = [], []
+            if len(steps) == len(subs):
+                for (op, sub), o in zip(subs, steps):
+                    rs = self.model_requests(sub, o)
+                    spans.append(len(rs))
+                    reqs.extend(rs)
+            case["_spans"] = spans
+            return reqs
         if kind == "util_resize":
             r = {"op": "c14.resized_util", "src": case["src"], "h": case["h"], "w": case["w"],
                  "shape": case["shape"], "pad": case["pad"]}
@@ -650,6 +1819,12 @@ class C14(PropertyCheck):
         raise ValueError(kind)
 
     def model_obs(self, case, responses):
+        if case["kind"] == "history":
+            out, a = [], 0
+            for (op, sub), n in zip(self._hist_subs(case), case.get("_spans", [])):
+                out.append(self.model_obs(sub, responses[a:a + n]))
+                a += n
+            return {"steps": out}
         for r in responses:
             if "err" in r:
                 return {"err": r["err"]}
@@ -679,6 +1854,15 @@ class C14(PropertyCheck):
     def compare(self, case, impl_obs, model_obs, cmp):
         if isinstance(impl_obs, dict) and "err" in impl_obs and len(impl_obs) <= 2:
             return cmp.diff({"err": impl_obs["err"]}, model_obs)
+        if case["kind"] == "history":
+            subs = self._hist_subs(case)
+            if not (len(subs) == len(impl_obs["steps"]) == len(model_obs["steps"])):
+                return f"$.steps: {len(impl_obs['steps'])} observations, {len(model_obs['steps'])} model values"
+            for i, ((op, sub), o, m) in enumerate(zip(subs, impl_obs["steps"], model_obs["steps"])):
+                d = self.compare(sub, o, m, cmp)
+                if d:
+                    return f"history read #{i + 1} ({op['op']}, world {op.get('w', 0)}) vs a fresh object: {d}"
+            return None
         if case["kind"] in ("mask_chain", "array_chain"):
             impl_obs = {"steps": impl_obs["steps"]}
         return self._cmp(impl_obs, model_obs, cmp, "$")
@@ -716,6 +1900,32 @@ class C14(PropertyCheck):
         if isinstance(obs, dict) and "err" in obs:
             return False, f"implementation raised {obs}"
         return getattr(self, "_oracle_" + case["kind"])(case, obs)
+
+    def _oracle_large(self, case, obs):
+        # the vectorised statement of the property (`_lj_*`) was evaluated on the raw outputs in `_run_large`
+        v = obs["verdict"]
+        return bool(v["holds"]), f"[large {case['op']}, sizes around {case.get('hint')}] {v['detail']}"
+
+    def _oracle_history(self, case, obs):
+        """every observing step is judged as the ordinary case a FRESH object in the current state would be"""
+        subs = self._hist_subs(case)
+        if len(obs["steps"]) != len(subs):
+            return False, f"history produced {len(obs['steps'])} observations, expected {len(subs)}"
+        for i, ((op, sub), o) in enumerate(zip(subs, obs["steps"])):
+            ok, d = self.oracle(sub, o)
+            if ok and sub["kind"] in ("array_chain", "mask_chain"):
+                # the object read from must BE the current state (the step check is relative to it)
+                if o["init"]["mask"] != sub["mask"]:
+                    ok, d = False, "the mask of the object does not show the in-place edits"
+                elif sub["kind"] == "array_chain":
+                    bits = sub["mask"]["bits"]
+                    exp = [Fraction(0) if b == "1" else Fraction(v) for b, v in zip(bits, sub["native"])]
+                    if [Fraction(v) for v in o["init"]["native"]] != exp:
+                        ok, d = False, "the array does not hold the current values under the current mask"
+            if not ok:
+                return False, (f"history read #{i + 1} of {len(subs)} ({op['op']}, world {op.get('w', 0)}) differs "
+                               f"from a freshly built object in the same state: {d}")
+        return True, ""
 
     def _oracle_util_resize(self, case, obs):
         h, w = case["h"], case["w"]
@@ -936,6 +2146,10 @@ class C14(PropertyCheck):
     # ------------------------------------------------------------------ misc
     def nontrivial(self, case, obs):
         kind = case["kind"]
+        if kind == "large":
+            return True
+        if kind == "history":
+            return len(case["worlds"]) > 1 or any(o["op"] not in HIST_OBSERVING for o in case["ops"])
         if kind == "util_resize":
             return [case["h"], case["w"]] != case["shape"]
         if kind in ("mask_chain", "array_chain"):
@@ -946,8 +2160,66 @@ class C14(PropertyCheck):
             return len({m["bits"] for m in case["masks"]}) > 1
         return True
 
+    def sample_view(self, case):
+        return {k: v for k, v in case.items() if not k.startswith("_")}
+
+    def _shrink_large(self, case):
+        def par(n, like):   # about half of n, at least 1, same parity as `like`
+            return _same_parity_below(max(1, n // 2), like)
+
+        if case.get("scales") not in (None, ["1", "1"]):
+            yield {**case, "scales": ["1", "1"]}
+        if case.get("origin") not in (None, ["0", "0"]):
+            yield {**case, "origin": ["0", "0"]}
+        op = case["op"]
+        if op == "util_rt":
+            h, w = case["h"], case["w"]
+            h2, w2 = case["shape"]
+            for a, b in ((par(h2, h2), w2), (h2, par(w2, w2)), (h2 - 2, w2), (h2, w2 - 2)):
+                if a >= 1 and b >= 1 and (a, b) != (h2, w2):
+                    yield {**case, "shape": [a, b], "h": min(h, _same_parity_below(a, h)),
+                           "w": min(w, _same_parity_below(b, w))}
+            for a, b in ((par(h, h), w), (h, par(w, w))):
+                if (a, b) != (h, w):
+                    yield {**case, "h": a, "w": b}
+        if op in ("array_chain", "mask_chain") and case["steps"][0]["k"] == "resize" and \
+                case["maskspec"]["t"] in ("rects", "none", "all"):
+            s0 = case["steps"][0]
+            h2, w2 = s0["shape"]
+            for a, b in ((par(h2, h2), w2), (h2, par(w2, w2))):
+                if (a, b) != (h2, w2) and a >= case["h"] and b >= case["w"]:
+                    yield {**case, "steps": [{**s0, "shape": [a, b]}] + case["steps"][1:]}
+
+    def _shrink_history(self, case):
+        base = {k: v for k, v in case.items() if not k.startswith("_")}
+        ops = base["ops"]
+        cands = []
+        if len(ops) > 2:   # a reuse history has at least two steps (something happened before the read)
+            for i in range(len(ops)):
+                cands.append({**base, "ops": ops[:i] + ops[i + 1:]})
+        if len(base["worlds"]) > 1 and not any(o.get("w", 0) == 1 for o in ops) and not base.get("share_mask"):
+            cands.append({**base, "worlds": base["worlds"][:1]})
+        for i, W in enumerate(base["worlds"]):
+            for key, triv in (("origin", ["0", "0"]), ("scales", ["1", "1"])):
+                if W[key] != triv and not base.get("share_mask") and not str(base.get("tag", "")).startswith("hist_twin"):
+                    ws = list(base["worlds"])
+                    ws[i] = {**W, key: triv}
+                    cands.append({**base, "worlds": ws})
+        for c in cands:
+            try:
+                if any(sub is not None for _o, _w, _s, sub in _hist_walk(c)):
+                    yield c
+            except (HistInvalid, KeyError, IndexError):
+                continue
+
     def shrink(self, case):
         kind = case["kind"]
+        if kind == "large":
+            yield from self._shrink_large(case)
+            return
+        if kind == "history":
+            yield from self._shrink_history(case)
+            return
         if kind in ("zoom", "apply_mask"):
             mj = case["mask"]
             bits = mj["bits"]
@@ -976,6 +2248,16 @@ class C14(PropertyCheck):
             yield {**case, "steps": case["steps"][:-1]}
 
     def theorems_for(self, case):
+        if case["kind"] == "history":
+            names = []
+            for _op, sub in self._hist_subs(case):
+                for n in self.theorems_for(sub):
+                    if n not in names:
+                        names.append(n)
+            return names or ["C14.*"]
+        if case["kind"] == "large":
+            return self.theorems_for({"kind": {"util_rt": "util_resize", "util_extract": "util_extract"}.get(
+                case["op"], case["op"])})
         return {
             "util_resize": ["C14.resized_eq_centred_window", "C14.resized_getElem", "C14.centred_margins",
                             "C14.crop_is_centred", "C14.embed_is_centred"],
